@@ -8,7 +8,7 @@ Ids == 1..16
 \* operations with the obligation (C20's list); lock entry/exit, spawn, cancel and probes are synchronous
 Obliged == {"instant", "sleep", "fset", "await_f", "await_c", "await_t", "put", "get", "qclose",
             "cput", "cget", "cclose", "borrow", "claim", "inc", "dec", "rset", "tset", "transfer",
-            "tick", "collect", "first"}
+            "tick", "flow"}
 VARIABLES tid, l, spin, owe, plain, bad
 vars == <<tid, l, spin, owe, plain, bad>>
 \* spin = activities with a pending `await instant` (runnable now)
